@@ -955,6 +955,9 @@ SCALAR_GRAFTS_OBJ = {
     "obj_obj_sub": "({o}-{o})",
     "obj_obj_mul": "({o}*{o})",
     "vec_vec_add": "({o}.vals()+{o}.vals())",
+    # a method on a NUMBER, under a name the same query has already used on an object (whatever was learnt about the name there)
+    "known_method_on_number": "({o}.pt() + {o}.eta().pt())",
+    "known_method_on_number_2": "({o}.eta() * {o}.pt().eta())",
     "getattribute": '{o}.getAttribute("x")',
     "kwargs": "{o}.pt(unit=1)",
     "slice": "{o}.vals()[0:2].Count()",
